@@ -133,7 +133,7 @@ func main() {
 	}
 	// the real, uninstrumented binary for the process-level parts (C06, C07, C08)
 	desyncBin := ""
-	if id == "C06" || id == "C07" || id == "C08" {
+	if true { // every check may run the real binary for its process-level part
 		desyncBin = filepath.Join(scratch, "desync")
 		bc := exec.Command("go", "build", "-o", desyncBin, "./cmd/desync")
 		bc.Dir = repo
